@@ -18,12 +18,12 @@ def termVal (x : BCtx) : Val → Option Value
   | .term id pos len => (x.node? id).map fun nd => .prim (x.termValue nd pos len)
   | _ => none
 
-/-- values appended by a list assignment node: every non-separator terminal child -/
-def listVals (x : BCtx) : List Val → Option (List Value)
+/-- values appended by a list assignment node: every terminal child not made by the node's separator match `sep` -/
+def listVals (x : BCtx) (sep : Option Nat) : List Val → Option (List Value)
   | [] => some []
   | k :: ks =>
-    if valRule x k == "sep" then listVals x ks
-    else match termVal x k, listVals x ks with
+    if isSepKid sep k then listVals x sep ks
+    else match termVal x k, listVals x sep ks with
       | some v, some vs => some (v :: vs)
       | _, _ => none
 
@@ -44,7 +44,7 @@ inductive KidItem (x : BCtx) : Val → Sem.Item → Prop
   /-- `a += match` / `a *= match` (the wrapper node exists only when something was matched) -/
   | list (aid : Nat) (nd : CNode) (ks : List Val) (op : AsgOp) (vs : List Value) :
       x.node? aid = some nd → (nd.node.rule = "__asgn_oneormore" ∨ nd.node.rule = "__asgn_zeroormore") →
-      (op = .plus ∨ op = .star) → listVals x ks = some vs → vs ≠ [] →
+      (op = .plus ∨ op = .star) → listVals x nd.node.sep ks = some vs → vs ≠ [] →
       KidItem x (.nt aid ks) (.asg nd.attr op vs)
 
 inductive KidsItems (x : BCtx) : List Val → List Sem.Item → Prop
@@ -159,9 +159,9 @@ def append1 (attrs : List (String × Value)) (name : String) (v : Value) : Optio
   | some (.prim .none) | none => some (setAttrV attrs name (.list [v]))
   | _ => none
 
-theorem processList_spec (x : BCtx) : ∀ (ks : List Val) (f me : Nat) (name : String)
+theorem processList_spec (x : BCtx) (sep : Option Nat) : ∀ (ks : List Val) (f me : Nat) (name : String)
     (attrs : List (String × Value)) (st : BSt) (attrs' : List (String × Value)) (st' : BSt) (vs : List Value),
-    listVals x ks = some vs → processList x f ks me name attrs st = .ok (attrs', st') →
+    listVals x sep ks = some vs → processList x f ks sep me name attrs st = .ok (attrs', st') →
     st' = st ∧ (vs = [] → attrs' = attrs) ∧
       (vs ≠ [] → ∃ old, (getAttr attrs name = some (.list old) ∨ (old = [] ∧ (getAttr attrs name = none ∨
           getAttr attrs name = some (.prim .none)))) ∧ attrs' = setAttrV attrs name (.list (old ++ vs))) := by
@@ -183,14 +183,14 @@ theorem processList_spec (x : BCtx) : ∀ (ks : List Val) (f me : Nat) (name : S
     | succ f =>
       simp only [listVals] at hv
       simp only [processList] at h
-      by_cases hsep : (valRule x k == "sep") = true
+      by_cases hsep : isSepKid sep k = true
       · simp only [hsep, if_true] at hv h
         exact ih f me name attrs st attrs' st' vs hv h
       · simp only [hsep, Bool.false_eq_true, if_false] at hv h
         cases htv : termVal x k with
         | none => simp [htv] at hv
         | some v =>
-          cases hlv : listVals x ks with
+          cases hlv : listVals x sep ks with
           | none => simp [htv, hlv] at hv
           | some vs0 =>
             simp only [htv, hlv, Option.some.injEq] at hv
@@ -362,12 +362,12 @@ theorem processKids_flat (x : BCtx) (specs : List Sem.AttrSpec) : ∀ (kids : Li
         have hne : (nd.node.rule == "__asgn_optional") = false := by rcases hrule with hr | hr <;> rw [hr] <;> decide
         have hne2 : (nd.node.rule == "__asgn_plain") = false := by rcases hrule with hr | hr <;> rw [hr] <;> decide
         simp only [processKids, hnd, Option.bind_some, hsw, if_true, hne, hne2, Bool.false_eq_true, if_false] at h
-        cases hpl : processList x f aks me nd.attr attrs st with
+        cases hpl : processList x f aks nd.node.sep me nd.attr attrs st with
         | error e => simp [hpl] at h
         | ok r =>
           obtain ⟨attrs1, st1⟩ := r
           simp only [hpl] at h
-          obtain ⟨hst, h0, h1⟩ := processList_spec x aks f me nd.attr attrs st attrs1 st1 vs hvs hpl
+          obtain ⟨hst, h0, h1⟩ := processList_spec x nd.node.sep aks f me nd.attr attrs st attrs1 st1 vs hvs hpl
           subst hst
           obtain ⟨g1, g2⟩ := ih f me attrs1 st1 attrs' st' h
           refine ⟨?_, g2⟩
